@@ -34,9 +34,8 @@ Definition save_records (s : store) : list record :=
 
 Inductive ires := IOk (s : store) | IErr | IPanic.
 
-(** [create_node_with_id] / [create_edge_with_id] compute [id + 1] for the id counter: the
-    largest id overflows (a panic in the overflow-checked build profiles) *)
-Definition id_max : Z := 2 ^ 64 - 1.
+(** before commit 1b18953 [create_node_with_id] / [create_edge_with_id] computed [id + 1] for the
+    id counter: the largest id overflowed (a panic in the overflow-checked build profiles) *)
 Definition names_max_id (sn : snapshot) : bool :=
   existsb (fun n : dnode => fst (fst n) =? id_max) (sn_nodes sn)
   || existsb (fun e : dedge => fst (fst (fst (fst e))) =? id_max) (sn_edges sn).
@@ -48,9 +47,20 @@ Section Snap.
 
   Definition export (s : store) : bytes := enc_snap (snapshot_of s).
 
-  (** [import_snapshot]: decoding completes (or fails) before the first insert; the number of
-      consumed bytes is ignored; only version 1 is accepted *)
+  (** [import_snapshot]: decoding completes (or fails) before the first insert; bytes behind the
+      snapshot are an error (commit 0d0a061); only version 1 is accepted.  (The decoder's
+      allocation limit of 2^30 bytes, commit 1800c6f, is not modelled: the model decoder never
+      reads beyond its input.) *)
   Definition import (bs : bytes) : ires :=
+    match dec_snap bs with
+    | None => IErr
+    | Some (sn, n) =>
+        if (n <? length bs)%nat then IErr
+        else if sn_version sn =? 1 then IOk (build sn) else IErr
+    end.
+  (** before the repairs 0d0a061 and 1b18953: the number of consumed bytes was ignored and the
+      largest identifier made the id counter overflow *)
+  Definition import_pre (bs : bytes) : ires :=
     match dec_snap bs with
     | None => IErr
     | Some (sn, _) =>
